@@ -76,7 +76,7 @@ func (it *MapIter[K, V]) Val() V { return it.v }
 func Iter[K comparable, V any](m map[K]V, site string) *MapIter[K, V] {
 	it := &MapIter[K, V]{m: m}
 	if len(m) == 0 {
-		if c := Ord; c != nil {
+		if c := curOrd(); c != nil {
 			c.noteVisit(site, 0)
 		}
 		return it
@@ -86,7 +86,7 @@ func Iter[K comparable, V any](m map[K]V, site string) *MapIter[K, V] {
 		keys = append(keys, k)
 	}
 	it.keys = keys
-	c := Ord
+	c := curOrd()
 	if c == nil {
 		return it
 	}
@@ -94,7 +94,7 @@ func Iter[K comparable, V any](m map[K]V, site string) *MapIter[K, V] {
 	byAddr := sortKeys(keys, m)
 	seed, mode := c.noteVisit(site, n)
 	if byAddr {
-		c.AddrSorted++
+		c.noteAddr()
 	}
 	if n >= 2 {
 		p := permFor(seed, mode, n)
@@ -120,6 +120,9 @@ func (c *OrderCtl) noteVisit(site string, n int) (uint64, int) {
 	}
 	return Mix(c.Seed, c.Visits), c.Mode
 }
+
+//go:norace
+func (c *OrderCtl) noteAddr() { c.AddrSorted++ }
 
 //go:norace
 func (c *OrderCtl) notePerm(site string, p []int) {
